@@ -95,23 +95,23 @@ type Emission struct {
 
 // Trace is everything an oracle may look at (implementation side only).
 type Trace struct {
-	Type        string
-	A1, A2, A3  int64
-	Tox         float32
-	Active      []bool    // per start: did the draw select the toxic?
-	Inputs      []Emission // chunks handed to the stub: At = time the sender offered it, Ts = stamp
-	AcceptedAt  []int64
-	Out         []Emission
-	ClosedAt    int64 // -1 if not closed
-	EosAt       int64 // -1
-	StartAt     []int64
-	IntrAt      []int64
+	Type         string
+	A1, A2, A3   int64
+	Tox          float32
+	Active       []bool     // per start: did the draw select the toxic?
+	Inputs       []Emission // chunks handed to the stub: At = time the sender offered it, Ts = stamp
+	AcceptedAt   []int64
+	Out          []Emission
+	ClosedAt     int64 // -1 if not closed
+	EosAt        int64 // -1
+	StartAt      []int64
+	IntrAt       []int64
 	Reconfigured bool
-	SinkAlways  bool // the sink was ready for the whole episode
-	Samples     []Sample // (virtual time, closed?) after every operation
-	AcceptedOp  []int    // operation during which each input was accepted
-	EosOp       int
-	End         int64
+	SinkAlways   bool     // the sink was ready for the whole episode
+	Samples      []Sample // (virtual time, closed?) after every operation
+	AcceptedOp   []int    // operation during which each input was accepted
+	EosOp        int
+	End          int64
 }
 
 type Sample struct {
@@ -275,6 +275,14 @@ func (e *Engine) episode(ops []string, res *report.Result) *report.Failure {
 				tr.Inputs = append(tr.Inputs, Emission{p.since(), append([]byte(nil), data...), p.since()})
 				p.nsend.Add(1)
 				go func() {
+					// (an implementation that deviates from the model may leave this send blocked
+					// until the harness closes the channel: that is a disagreement to report, not
+					// a reason for the harness to die)
+					defer func() {
+						if recover() != nil {
+							p.nsend.Add(-1)
+						}
+					}()
 					p.in <- c
 					p.accepted.Add(1)
 					p.nsend.Add(-1)
